@@ -1453,7 +1453,7 @@ def pad_fn(
         cnt = 0
     else:
         cnt = int(cntstr)
-    if cnt - len(v) > len(pad):
+    if cnt - len(v) > len(pad) and len(pad) > 0:
         pad = pad * ((cnt - len(v)) // len(pad) + 1)
     if len(v) < cnt:
         padlen = cnt - len(v)
